@@ -72,14 +72,14 @@ AmpDen(usr, rd) == IF usr.d.normalize THEN SessL ELSE IF usr.alias THEN rd ELSE 
 CreateUser(d) ==
   /\ phase = "run" /\ Len(users) < MaxUsers
   /\ rootDen' = IF Alias(d) /\ d.normalize THEN SessL ELSE rootDen      \* in-place normalisation of a shared array
-  /\ users' = Append(users, [d |-> d, alias |-> Alias(d), den |-> rootDen])
+  /\ users' = Append(users, [d |-> d, alias |-> Alias(d), den |-> rootDen, occStale |-> FALSE])
   /\ c' = [kind |-> "s-user", d |-> d, req |-> {"ArgumentsUnchanged", "FrameRoot", "FrameUsers", "EarlierResultsUnchanged"}]
   /\ UNCHANGED <<ests, phase>>
 
 \* CazacBasedChannelEstimator(user | user.seq_array(), size_multiplier) / CazacBasedWithOCCChannelEstimator(user)
 CreateEst(i, o) ==
   /\ phase = "run" /\ Len(ests) < MaxEsts /\ i \in 1..Len(users) /\ o \in Opts(users[i].d)
-  /\ ests' = Append(ests, [user |-> i, o |-> o, win |-> -1, held |-> "none"])
+  /\ ests' = Append(ests, [user |-> i, o |-> o, win |-> -1, held |-> "none", refStale |-> FALSE])
   /\ c' = [kind |-> "s-newest", user |-> i, o |-> o,
            req |-> {"ArgumentsUnchanged", "FrameRoot", "FrameUsers", "EarlierResultsUnchanged"}]
   /\ UNCHANGED <<rootDen, users, phase>>
@@ -102,6 +102,23 @@ Estimate(j, v) ==
            scaleDen |-> AmpDen(users[ests[j].user], rootDen)]
   /\ UNCHANGED <<rootDen, users, phase>>
 
+\* The CALLER overwrites, in place, an array it handed to a constructor earlier: the cover-code array of user i
+\* (DmrsUeSequence(.., cover_code = a)), the plain reference array of estimator j (CazacBasedChannelEstimator(a, ..)).
+\* The object must go on behaving as constructed - it copied the values, or it froze the array and the write is refused.
+\* A deviating object kept a view of the caller's buffer and now disagrees with what it transmits / was built for.
+OverwriteCover(i) ==
+  /\ phase = "run" /\ i \in 1..Len(users) /\ users[i].d.cover # <<>>
+  /\ users' = [users EXCEPT ![i].occStale = @ \/ Dev.CoverCodeIsCallersView]
+  /\ c' = [kind |-> "s-overwrite-cover", user |-> i,
+           req |-> {"ConstructionValuesKept", "FrameRoot", "FrameUsers", "EarlierResultsUnchanged"}]
+  /\ UNCHANGED <<rootDen, ests, phase>>
+OverwriteRef(j) ==
+  /\ phase = "run" /\ j \in 1..Len(ests) /\ ests[j].o.arr
+  /\ ests' = [ests EXCEPT ![j].refStale = @ \/ Dev.EstimatorKeepsCallersArray]
+  /\ c' = [kind |-> "s-overwrite-ref", est |-> j,
+           req |-> {"ConstructionValuesKept", "FrameRoot", "FrameUsers", "EarlierResultsUnchanged"}]
+  /\ UNCHANGED <<rootDen, users, phase>>
+
 CatUe(d) == /\ phase = "run" /\ c.kind = "init" /\ phase' = "cat" /\ c' = UeRecS(d)
             /\ UNCHANGED <<rootDen, users, ests>>
 CatEst(d, o, v) == /\ phase = "run" /\ c.kind = "init" /\ MaxEsts > 0 /\ phase' = "cat" /\ c' = EstRecS(d, o, v)
@@ -111,6 +128,8 @@ SNext == \/ \E d \in SessAlphabet : CreateUser(d) \/ CatUe(d)
          \/ \E d \in SessAlphabet : \E o \in Opts(d) : \E v \in SessVars : CatEst(d, o, v)
          \/ \E i \in 1..MaxUsers : \E o \in [arr : BOOLEAN, mult : 1..2] : CreateEst(i, o)
          \/ \E j \in 1..MaxEsts : \E v \in SessVars : Estimate(j, v)
+         \/ \E i \in 1..MaxUsers : OverwriteCover(i)
+         \/ \E j \in 1..MaxEsts : OverwriteRef(j)
 
 (* ----------------------------------------------------------------- properties ------ *)
 \* creating a user leaves the root sequence what it was: unit modulus (its exponents are in every `ue` record)
@@ -121,6 +140,9 @@ FrameUsers == \A i \in 1..Len(users) : AmpDen(users[i], rootDen) = Norm2(users[i
 CallDependsOnArgsOnly == c.kind = "s-est" => (c.keff = c.keep /\ c.scaleNum = c.scaleDen)
 \* results handed out earlier stay what they were
 EarlierResultsUnchanged == \A j \in 1..Len(ests) : ests[j].held # "clobbered"
+\* an object is what it was constructed with, whatever the caller does to its own buffers afterwards
+ConstructionValuesKept == /\ \A i \in 1..Len(users) : ~users[i].occStale
+                          /\ \A j \in 1..Len(ests) : ~ests[j].refStale
 SessTypeOK == /\ Len(users) <= MaxUsers /\ Len(ests) <= MaxEsts /\ phase \in {"run", "cat"}
               /\ \A j \in 1..Len(ests) : ests[j].user \in 1..Len(users)
 
